@@ -600,7 +600,7 @@ func (r *Run) callFn(st *State, fn *ssa.Function, args []Value, bind []Value, re
 		}
 		return r.finishDirect(st, fn, vals, retTo, deferred)
 	}
-	if fn.Blocks == nil || (fn.Pkg != nil && r.Eng.DenyPkgs[fn.Pkg.Pkg.Path()]) || (fn.Pkg == nil && r.denyMethod(fn)) {
+	if fn.Blocks == nil || (!r.Eng.AllowFns[name] && ((fn.Pkg != nil && r.Eng.DenyPkgs[fn.Pkg.Pkg.Path()]) || (fn.Pkg == nil && r.denyMethod(fn)))) {
 		vals, err := r.external(st, fn, args, pos)
 		if err != nil {
 			return err
